@@ -53,9 +53,33 @@ class ATypiClustRng(pl.ATypiClust):
         return pl.pool().TypiClust(random_state=seed, k=1)     # the real KMeans
 
 
+class AClueRng(pl.AClue):
+    def __init__(self):
+        super().__init__("least_confident")
+        self.name = "Clue[rng-clusterer]"
+
+    def make(self, seed, sym=True, inputs=None, **kw):
+        if sym:
+            return pl.pool().Clue(random_state=seed, cluster_algo=make_rng_clusterer(), method=self.method)
+        return pl.pool().Clue(random_state=seed, method=self.method)     # the real KMeans
+
+
+class AProbCoverRng(pl.AProbCover):
+    name = "ProbCover[rng-clusterer]"
+
+    def make(self, seed, sym=True, inputs=None, **kw):
+        if sym:
+            return pl.pool().ProbCover(random_state=seed, cluster_algo=make_rng_clusterer(), deltas=[0.5, 1.0],
+                                       distance_func=pl._sym_abs_distances)
+        return pl.pool().ProbCover(random_state=seed, deltas=[0.5, 1.0])     # the real KMeans
+
+
+_RNG_VARIANTS = {"TypiClust[rng-clusterer]": ATypiClustRng, "Clue[rng-clusterer]": AClueRng, "ProbCover[rng-clusterer]": AProbCoverRng}
+
+
 def _adapter(name):
-    if name == "TypiClust[rng-clusterer]":
-        return ATypiClustRng()
+    if name in _RNG_VARIANTS:
+        return _RNG_VARIANTS[name]()
     return pl.ADAPTERS[name]
 
 
@@ -112,7 +136,7 @@ def replay_pool(inputs, label, strat, n, mode, b, rs="int"):
                               f"{np.asarray(o1b[0]).tolist()}, twin {np.asarray(o2[0]).tolist()}")
         return False, "not reproduced"
     datasets = [pl.real_scenario(inputs, n, mode)]
-    if strat.startswith("TypiClust"):
+    if strat.split("[")[0] in ("TypiClust", "Clue", "ProbCover"):
         # data on which k-means has several optimal partitions (duplicated / equidistant points)
         for X in ([0.0, 0.0, 1.0, 1.0, 2.0, 2.0], [0.0, 1.0, 2.0, 3.0, 4.0, 5.0]):
             s2 = pl.Scenario()
@@ -261,7 +285,7 @@ def replay_clf(inputs, label, n, nq):
 
 # ----------------------------------------------------------------
 # (the plain "TypiClust" adapter uses an arbitrary-labels clusterer chosen per call: not a deterministic model)
-POOL = [n for n in pl.ADAPTERS if n != "TypiClust"] + ["TypiClust[rng-clusterer]"]
+POOL = [n for n in pl.ADAPTERS if n.split("[")[0] not in ("TypiClust", "Clue", "ProbCover")] + list(_RNG_VARIANTS)
 
 
 def _cfg_pool(name):
@@ -272,7 +296,7 @@ def _cfg_pool(name):
             if mode == "rows" and not a.supports_rows:
                 continue
             for b in ((2,) if tier == "quick" else (1, 2, 3)):
-                if getattr(a, "slow", False) and b > 1:
+                if getattr(a, "slow", False) and b > 1 and not name.startswith("ProbCover"):
                     continue
                 out.append(dict(strat=name, n=3, mode=mode, b=b))
         if name in ("RandomSampling", "UncertaintySampling[least_confident]"):
